@@ -20,7 +20,7 @@ RULE = (
     "invocation index<2) that occurs; EVERY such point is then injected as the failing one, one at a time (plus sampled pairs in one step), "
     "under run (raise and continue) and top-level map (raise and continue), SyncRunner and AsyncRunner under seeded schedules. "
     "Non-trivial = the injected failure actually fired; distinct = digest of (program shape, failure point, mode, completion order)."
-    ' Failure points include routing functions of gates (with and without a fallback target). Also: five kinds of injected exception (with/without arguments, TypeError with a call-mismatch text, KeyError, ValueError; StopIteration from plain synchronous functions under the sync runner); an event processor attached to the failing runs, explicit select of all data outputs with on_missing="error" on the failing runs, partial values of failed items of a top-level map compared between the runners (key presence), and a map in which exactly one item fails (fault conditioned on the input of that item): the FAILED result must sit at the position of that item under bounded concurrency and out-of-order completion.'
+    ' Failure points include routing functions of gates (with and without a fallback target). Also: six kinds of injected exception (with/without arguments, TypeError with a call-mismatch text, KeyError, ValueError, an exception whose truth value is False; StopIteration from plain synchronous functions under the sync runner); an event processor attached to the failing runs, explicit select of all data outputs with on_missing="error" on the failing runs, partial values of failed items of a top-level map compared between the runners (key presence), and a map in which exactly one item fails (fault conditioned on the input of that item): the FAILED result must sit at the position of that item under bounded concurrency and out-of-order completion.'
 )
 ASSUMPTIONS = [
     "the state before the failing step equals the fault-free run's state before that step (checked differentially through the step tap)",
@@ -222,9 +222,9 @@ def run_case(doc: dict) -> dict:
     last_plan = None
     for pi, plan in enumerate(plans):
         last_plan = plan
-        kinds = ["plain", "noargs", "typeerror_kw", "keyerror", "valueerror"]
+        kinds = ["plain", "noargs", "typeerror_kw", "keyerror", "valueerror", "falsy"]
         faults = [
-            {"kind": "raise", "node": n, "inv": i, "when": "before" if ((pi + fi) % 2 == 0 or (n, i) in gate_points) else "after", "fid": fi, "exc": kinds[(pi + fi + doc["pair_seed"]) % 5]}
+            {"kind": "raise", "node": n, "inv": i, "when": "before" if ((pi + fi) % 2 == 0 or (n, i) in gate_points) else "after", "fid": fi, "exc": kinds[(pi + fi + doc["pair_seed"]) % 6]}
             for fi, (n, i) in enumerate(plan)
         ]
         fids = list(range(len(plan)))
